@@ -232,7 +232,7 @@ def r7_4(repo: Repo) -> RuleResult:
         nm = norm(c.func)
         if nm == "initialize_supply" and len(c.args) >= 2:
             handed += [("supply", c.args[0], c), ("demand", c.args[1], c)]
-        elif nm == "initialize_cost" and c.args:
+        elif (nm == "initialize_cost" or (len(c.args) >= 3 and norm(c.args[2]).endswith(".cost") and "cost" in nm)) and c.args:
             handed.append(("cost", c.args[0], c))
     if len(handed) != 3:
         raise AnalysisError("R7.4: initialize_supply / initialize_cost calls of transport_plan not recognised")
@@ -303,14 +303,49 @@ def r7_5(repo: Repo) -> RuleResult:
     return r10_9(repo, "R7.5", {"get_transport_plan", "transport_plan"})
 
 
-RULES = [r7_1, r7_2, r7_3, r7_4, r7_5]
+def r7_6(repo: Repo) -> RuleResult:
+    """R7.1 proves the cell -> arc numbering of pynndescent's initialize_cost against get_transport_plan.  If the
+    repository writes the costs itself, the writer must address cells by explicit (i, j) indices as well: iterating the
+    matrix in *memory* order (np.nditer, .flat, ravel) pairs arcs with cells by layout, and the cost matrix is handed
+    over transposed (Fortran-ordered view) whenever the row has no more points than the reference."""
+    rr = RuleResult("R7.6", "arc costs are written by pynndescent.initialize_cost or by a writer that addresses cells by (i, j)", floor=1)
+    tp = repo.func(LOT, "transport_plan")
+    calls = [c for c in repo.calls_in(tp) if len(c.args) >= 3 and norm(c.args[2]).endswith(".cost")]
+    if len(calls) != 1:
+        raise AnalysisError("R7.6: the call that fills node_arc_data.cost not found in transport_plan")
+    c = calls[0]
+    tg = [t for t in repo.resolve_call(tp, c) if isinstance(t, Func)]
+    if not tg:
+        canon = repo.canonical(tp.module, c.func) or norm(c.func)
+        if canon.endswith("initialize_cost"):
+            rr.ok(tp, "cost writer", "%s (numbering proved by R7.1)" % canon, c.lineno)
+        else:
+            raise AnalysisError("R7.6: unknown external cost writer `%s`" % canon)
+        return rr
+    w = tg[0]
+    layout = [x for x in walk_no_nested(w.node) if (isinstance(x, ast.Call) and (norm(x.func).endswith("nditer") or (isinstance(x.func, ast.Attribute) and x.func.attr in ("ravel", "flatten"))))
+              or (isinstance(x, ast.Attribute) and x.attr == "flat")]
+    if layout:
+        rr.bad(w, "cost writer", "`%s` walks the cost matrix in memory order (`%s`): for a Fortran-ordered or transposed cost matrix - which transport_plan "
+               "receives whenever the row has no more support points than the reference - cells are paired with the wrong arcs and the plan is "
+               "feasible but not optimal" % (w.name, short(layout[0], 40)), layout[0].lineno)
+    else:
+        loops = [n for n in walk_no_nested(w.node) if isinstance(n, ast.For)]
+        if len(loops) >= 2:
+            rr.ok(w, "cost writer", "%s addresses cells through explicit loop indices" % w.name, w.node.lineno)
+        else:
+            raise AnalysisError("R7.6: cost writer %s has an unrecognised shape" % w.key)
+    return rr
+
+
+RULES = [r7_1, r7_2, r7_3, r7_4, r7_5, r7_6]
 CLAIM = (
     "index plumbing only: R7.1 the linearisation of cell (i, j) used when costs are written (pynndescent initialize_cost, parsed "
     "from the installed package) equals the one used when the flow is read back (get_transport_plan), proved symbolically under "
     "cost.shape = (|p|, |q|); R7.2 the cost matrix has orientation (|p|, |q|) on both branches at both call sites (shape-kind "
     "propagation through .T); R7.3 demand enters negated; R7.4 p, -q and cost reach the solver set-up as given - a "
     "division on the way whose divisor derives from the cost matrix needs a dominating non-zero test (an all-zero cost matrix is valid input); "
-    "R7.5 the arc number is not pinned to a narrow integer type through @njit(locals=...)."
+    "R7.5 the arc number is not pinned to a narrow integer type through @njit(locals=...); R7.6 arc costs are written by pynndescent's initialize_cost or by a writer addressing cells by explicit indices, never by memory-order iteration."
 )
 NOT_DECIDED = (
     "non-negativity, marginals to 1e-9 and optimality to 1e-7 of the network-simplex result: numerical facts about an iterative "
